@@ -62,3 +62,31 @@ Proof. vm_compute. reflexivity. Qed.
 
 (* every remaining property theorem of this file *)
 Print Assumptions C10_read_paths.
+
+(* ---- API layer end to end (Model/Api.v: KVServer -> Engine -> ActiveTable -> state machine) ---- *)
+From Verif Require Model.Api Proofs.ApiFacts.
+
+(* every acknowledged mutation sent through the API - put, delete range, transaction, also one whose executed branch is
+   empty - is answered with exactly the log position its proposal was given, and that is the table's applied index
+   afterwards; otherwise it was refused and nothing changed *)
+Theorem C10_api_revision_is_log_position :
+  forall (sd : SMap.smap spec_state) (idx : N) (q : Api.api_req) (o : Api.api_resp) (sd' : SMap.smap spec_state),
+  Api.spec_step sd idx q = (sd', o) -> ApiFacts.is_write q = true ->
+  (exists st, o = Api.PErr st /\ sd' = sd) \/
+  (ApiFacts.resp_rev o = Some idx /\ exists st', SMap.sget sd' (Api.req_table q) = Some st' /\ applied st' = idx).
+Proof. exact ApiFacts.write_revision. Qed.
+Print Assumptions C10_api_revision_is_log_position.
+
+(* the non-zero revisions reported along any request sequence strictly increase when log positions do *)
+Theorem C10_api_revisions_increase : forall (qs : list (N * Api.api_req)) (sd : SMap.smap spec_state) (lo : N),
+  Sorted.StronglySorted N.lt (map fst qs) -> Forall (fun i => lo < i) (map fst qs) ->
+  Forall (fun r => lo < r) (ApiFacts.revs_of (snd (Api.spec_run sd qs))) /\
+  Sorted.StronglySorted N.lt (ApiFacts.revs_of (snd (Api.spec_run sd qs))).
+Proof. exact ApiFacts.revisions_increase. Qed.
+Print Assumptions C10_api_revisions_increase.
+
+(* requests that are not writes (reads, read-only transactions) never move any table *)
+Theorem C10_api_reads_do_not_advance : forall (sd : SMap.smap spec_state) (idx : N) (q : Api.api_req),
+  ApiFacts.is_write q = false -> fst (Api.spec_step sd idx q) = sd.
+Proof. exact ApiFacts.read_revision. Qed.
+Print Assumptions C10_api_reads_do_not_advance.
